@@ -175,7 +175,7 @@ def execute(ctx, inp, idx):
 # ---------------------------------------------------------------------------------------------------
 def enumerate_inputs(ctx):
     q = ctx.quick
-    consts = dict(Kinds={"net2d", "net3d", "txt"}, NCat2=4 if q else 8, MaxLen2=3 if q else 4, NCat3=5 if q else 6, MaxLen3=3,
+    consts = dict(Kinds={"net2d", "net3d", "txt"}, NCat2=4 if q else 6, MaxLen2=3 if q else 4, NCat3=5 if q else 6, MaxLen3=3,
                   MaxArrays=3, MaxLenTxt=4, Offs={0, 3} if q else {0, 1, 3, 6})
     m, cf = tlc.gen(ctx.work / "enum", "MC_FileRoundTripEnum", "FileRoundTripEnum", consts, invariants=["Emit", "Laws"])
     return [r for batch in ctx.tlc(m, cf, workers=8, allow_violation=False).records for r in batch]
@@ -211,7 +211,7 @@ def judge(ctx, cases):
 
 
 def run(ctx):
-    ctx.rule = ("TLC enumerates: every sequence of 1..3 (thorough 1..4) distinct line fractures of a catalogue of 5 (8) - shared "
+    ctx.rule = ("TLC enumerates: every sequence of 1..3 (thorough 1..4) distinct line fractures of a catalogue of 4 (thorough 6) - shared "
                 "end points, a reversed duplicate, crossings, negative and half-integer coordinates - x with_header x "
                 "max_num_fracs in {not given, 0..n} x tag column x (domain + return_frac_id); every sequence of 1..3 distinct "
                 "planar convex polygons (3-5 vertices) of a catalogue of 5 (6) x domain written or not; 1..3 named arrays "
